@@ -19,8 +19,13 @@ def handle (line : String) : String :=
     match ao.toInt?, al.toInt?, bo.toInt?, bl.toInt? with
     | some ao, some al, some bo, some bl => if less ⟨ao, al⟩ ⟨bo, bl⟩ then "1" else "0"
     | _, _, _, _ => "bad-op"
+  -- `sort`: the list is compatible ⇒ the result is determined (theorem sorted_spec_partial);
+  -- otherwise the source's comparator gives sort.Sort no contract and the model predicts nothing.
   | ["sort", l] => match parseList l with
-    | some l => showList (sortEntities l)
+    | some l => if compatible l then "compatible " ++ showList (sortEntities l) else "incompatible"
+    | none => "bad-op"
+  | ["specsort", l] => match parseList l with
+    | some l => showList (isort specLess l)
     | none => "bad-op"
   | ["holds", l] => match parseList l with
     | some l => if holds l then "1" else "0"
